@@ -148,7 +148,10 @@ def scen_terms(env, cfg):
         if hasattr(cnd, 'rf'):
             import z3
             from vf.core import SB
-            cnd = SB(cnd.t, cnd.rt, z3.And(z3.Not(cnd.t), (p['NF_el'] >= 3).t, (p['T'] >= 100).t))     # replay steering only
+            steer = [z3.Or((p['NF_el'] >= 3).t, (p['NF_el'] == 0).t), (p['T'] <= 5).t, (p['P_avg'] <= -30).t]
+            if amplify:
+                steer += [(p['G'] <= 3).t, (p['G'] >= 1).t]
+            cnd = SB(cnd.t, cnd.rt, z3.And(z3.Not(cnd.t), *steer))     # replay steering only: a corner where every term is visible in doubles
         env.check(f'noise_variances[{i}] == thermal 4kB*T*B*R_L*Fn + shot 2e*mu*B*R_L + signal-ASE + ASE-ASE beating [V^2]', cnd)
     if not amplify:
         # agreement with the PD device model (C09): variances in A^2 over B times R_load^2
